@@ -270,3 +270,31 @@ def random_indent_config(rng):
         nv = rng.choice([x for x in INDENT_VALUES if str(x) != str(v)])
         cfg.setdefault(g, {}).setdefault(t, {})[k] = nv
     return {"tokens": cfg}
+
+
+LOCAL_RULE = """# -*- coding: utf-8 -*-
+from vsg import rule, token, violation
+
+
+class rule_001(rule.Rule):
+    def __init__(self):
+        super().__init__()
+        self.name = "%(name)s"
+        self.unique_id = "%(name)s_001"
+        self.phase = %(phase)d
+        self.fixable = False
+        self.solution = "%(name)s: local rule objects to this design unit"
+
+    def analyze(self, oFile):
+        for oToi in oFile.get_tokens_matching([token.%(tok)s]):
+            self.add_violation(violation.New(oToi.get_line_number(), oToi, self.solution))
+"""
+
+
+def local_rules(rng):
+    """Two or three user rule modules for a --local_rules directory (sandbox entries)."""
+    kinds = [("locala", "entity_declaration.entity_keyword"), ("localb", "architecture_body.architecture_keyword"), ("localc", "process_statement.process_keyword"), ("locald", "entity_declaration.entity_keyword")]
+    out = []
+    for name, tok in rng.sample(kinds, rng.choice([2, 3])):
+        out.append(sb_entry("lr/rule_%s_001.py" % name, (LOCAL_RULE % {"name": name, "tok": tok, "phase": rng.choice([1, 7, 7])}).encode()))
+    return out
